@@ -524,6 +524,7 @@ pub struct Lim {
     steps: u32,
     credit: Option<usize>,
     t_half: u32,
+    long_ms: u64,
     end_at: Option<u32>,
     send_result: Option<String>,
     pings: Vec<u32>,
@@ -556,7 +557,7 @@ fn eff(c: &LimCfg) -> Eff {
                 let w = ep.hs_max_send.filter(|v| *v != 0).unwrap_or(ep.max_send) as usize;
                 peer_rm.map_or(w, |p| w.min(p))
             },
-            ka_timeout: ep.hs_keepalive.map_or(if k == 0 { 30 } else { (k + k / 2) as u32 }, |v| v as u32),
+            ka_timeout: ep.hs_keepalive.map_or(if k == 0 { 30 } else { k as u32 + k as u32 / 2 }, |v| v as u32),
             ka_client: k,
             out_size: 0,
         },
@@ -566,7 +567,7 @@ fn eff(c: &LimCfg) -> Eff {
             alias: 0,
             recv: 0,
             window: ep.hs_max_send.filter(|v| *v != 0).unwrap_or(ep.max_send) as usize,
-            ka_timeout: ep.hs_keepalive.map_or(if k == 0 { 30 } else { (k + k / 2) as u32 }, |v| v as u32),
+            ka_timeout: ep.hs_keepalive.map_or(if k == 0 { 30 } else { k as u32 + k as u32 / 2 }, |v| v as u32),
             ka_client: k,
             out_size: 0,
         },
@@ -626,7 +627,14 @@ impl Lim {
     }
 }
 
+/// keep-alive timeouts above this many seconds are probed on a 1 s grid instead of the 100 ms one
+const LONG_KA: u32 = 100;
+
 fn late(t: u32) -> u32 {
+    if t > LONG_KA {
+        // 1.05 s grid, one tick per step: the timer runs up to 5% (+ a few ticks) behind the clock
+        return 2 * (t + t / 18 + 4);
+    }
     ((t + 1) * 26).div_ceil(10) + 1
 }
 
@@ -638,7 +646,7 @@ impl Scenario for Lim {
         let cfg = cfg.clone();
         Box::pin(async move {
             let conn = start_endpoint(&cfg.ep, cfg.connect_props.clone(), true).await;
-            Lim { cfg, conn, probe: None, steps: 0, credit: None, t_half: 0, end_at: None, send_result: None, pings: vec![] }
+            Lim { cfg, conn, probe: None, steps: 0, credit: None, t_half: 0, long_ms: 0, end_at: None, send_result: None, pings: vec![] }
         })
     }
 
@@ -689,7 +697,9 @@ impl Scenario for Lim {
                         self.credit = self.conn.sink().map(|s| s.credit());
                     }
                     Probe::KeepAlive => {
-                        self.steps = 5 * (late(e.ka_timeout.max(e.ka_client as u32 * 2)) + 4);
+                        // hours-long keep-alives are walked in 1 s steps (the library's timers count 1 s ticks)
+                        let half_seconds = late(e.ka_timeout.max(e.ka_client as u32 * 2)) + 4;
+                        self.steps = if e.ka_timeout > LONG_KA { half_seconds.div_ceil(2) + 4 } else { 5 * half_seconds };
                     }
                     Probe::OutSizeOver | Probe::OutSizeOk => {
                         let n = if p == Probe::OutSizeOk { (e.out_size / 2).max(1) } else { e.out_size + e.out_size / 2 } as usize;
@@ -709,9 +719,17 @@ impl Scenario for Lim {
             }
             LEv::Step => {
                 self.steps -= 1;
-                ntex_util::time::vclock::advance(Duration::from_millis(100));
-                if self.steps % 5 == 0 {
-                    self.t_half += 1;
+                if e.ka_timeout > LONG_KA {
+                    // a little more than the ticker's 1 s sleep, so that every step is one tick (the timer wheel
+                    // rounds a sleep up; on an exact 1 s grid the ticker would fire every other step)
+                    ntex_util::time::vclock::advance(Duration::from_millis(1050));
+                    self.long_ms += 1050;
+                    self.t_half = (self.long_ms / 500) as u32;
+                } else {
+                    ntex_util::time::vclock::advance(Duration::from_millis(100));
+                    if self.steps % 5 == 0 {
+                        self.t_half += 1;
+                    }
                 }
             }
         }
@@ -840,10 +858,12 @@ impl Scenario for Lim {
                 if server {
                     let t = e.ka_timeout;
                     match self.end_at {
+                        // one class for all client values whose 1.5x does not fit the library's 16-bit second timers
+                        Some(at) if at < 2 * t && t > 65535 => return bad(self, "keepalive-early", "1.5x client value above 65535s"),
                         Some(at) if at < 2 * t => return bad(self, "keepalive-early", &format!("{t}s")),
                         Some(_) if !stops.iter().any(|s| s.contains("KeepAliveTimeout")) => return bad(self, "keepalive-wrong-reason", ""),
-                        None if t <= 6 => return bad(self, "keepalive-missing", &format!("{t}s")),
-                        Some(at) if at > late(t) && t <= 6 => return bad(self, "keepalive-late", &format!("{t}s")),
+                        None if t <= 6 || t > LONG_KA => return bad(self, "keepalive-missing", &format!("{t}s")),
+                        Some(at) if at > late(t) && (t <= 6 || t > LONG_KA) => return bad(self, "keepalive-late", &format!("{t}s")),
                         _ => {}
                     }
                 } else {
@@ -970,6 +990,15 @@ pub fn lim_configs(tier: Tier) -> Vec<LimCfg> {
         }
         v.push(LimCfg { ep, connect_props: vec![], probes: vec![SizeOk, SizeOver, QosOk, QosOver, Window, KeepAlive] });
     }
+    // ---- servers, hours-long client keep-alive (1.5 x 30000 s needs the full 16-bit range of the timers)
+    for ver in [Ver::V3, Ver::V5] {
+        for k in [30000u16, 65535] {
+            let mut ep = EpCfg::new(ver, Role::Server);
+            ep.handler_auto = false;
+            ep.client_keepalive = k;
+            v.push(LimCfg { ep, connect_props: vec![], probes: vec![KeepAlive] });
+        }
+    }
     // ---- v5 client: the server's CONNACK decides window, outbound size, keep-alive; its own CONNECT decides inbound limits
     for f in 0..5 {
         let mut ep = EpCfg::new(Ver::V5, Role::Client);
@@ -1018,10 +1047,11 @@ pub fn run(tier: Tier) -> i32 {
     let l = ExploreCfg { max_dev: 0, max_execs: 1_000_000, max_polls: 200_000, ..Default::default() };
     let lc = lim_configs(tier);
     for (i, c) in lc.iter().enumerate() {
-        ck.explore::<Lim>("limits", 2000 + i, c, &l);
+        let long = eff(c).ka_timeout > LONG_KA;
+        ck.explore::<Lim>("limits", 2000 + i, c, &if long { ExploreCfg { max_polls: 5_000_000, ..l.clone() } } else { l.clone() });
     }
     ck.rule = format!(
-        "gate: v3, v5 and combined server x handshake {{accept, refuse, error, slow}} x every first packet (CONNECT with protocol name MQTT / MQIsdp / MQTX, level 3/4/5/6, reserved flag; every other packet type in v3 and v5 encoding; reserved types) followed by up to {} packets (PUBLISH, SUBSCRIBE) and the handshake completion in every order with {} injection(s) while runnable - no handler before the acceptance record, invalid first packet / refusal / error end the connection with at most the refusing CONNACK, valid CONNECT routed to the service of its level, every follow-up handled once in order; fragmentation: combined server, CONNECT level 4 and 5 followed by PUBLISH + SUBSCRIBE + PINGREQ, first {} bytes in all {} fragmentations, with 0 / 5 / 9 / all bytes of the CONNECT already in the read buffer when the server starts; limits: {} configurations of configured vs CONNECT-requested vs handshake-overridden values (v5 server: each of max QoS, max packet size, receive maximum, topic alias max, max send, keep-alive from each source and all at once with pairwise distinct values x peer Receive Maximum absent / below / above; v3 server; v5 client with CONNACK receive maximum / max packet size / server keep-alive; v3 client), each probed after the handshake: CONNACK contents, packet at half / one and a half times the size limit, QoS at / above, alias at / above, receive maximum at / above, credit(), keep-alive expiry time on the virtual clock, client ping period, outbound packet over the peer's size limit",
+        "gate: v3, v5 and combined server x handshake {{accept, refuse, error, slow}} x every first packet (CONNECT with protocol name MQTT / MQIsdp / MQTX, level 3/4/5/6, reserved flag; every other packet type in v3 and v5 encoding; reserved types) followed by up to {} packets (PUBLISH, SUBSCRIBE) and the handshake completion in every order with {} injection(s) while runnable - no handler before the acceptance record, invalid first packet / refusal / error end the connection with at most the refusing CONNACK, valid CONNECT routed to the service of its level, every follow-up handled once in order; fragmentation: combined server, CONNECT level 4 and 5 followed by PUBLISH + SUBSCRIBE + PINGREQ, first {} bytes in all {} fragmentations, with 0 / 5 / 9 / all bytes of the CONNECT already in the read buffer when the server starts; limits: {} configurations of configured vs CONNECT-requested vs handshake-overridden values (v5 server: each of max QoS, max packet size, receive maximum, topic alias max, max send, keep-alive from each source and all at once with pairwise distinct values x peer Receive Maximum absent / below / above; v3 server; v3 and v5 server with client keep-alive 30000 s and 65535 s, expiry walked in 1.05 s steps; v5 client with CONNACK receive maximum / max packet size / server keep-alive; v3 client), each probed after the handshake: CONNACK contents, packet at half / one and a half times the size limit, QoS at / above, alias at / above, receive maximum at / above, credit(), keep-alive expiry time on the virtual clock, client ping period, outbound packet over the peer's size limit",
         gc[0].max_follow,
         g.max_dev,
         head,
@@ -1042,8 +1072,8 @@ pub fn trace(tier: Tier, idx: usize, choices: &[u16], script: Option<Vec<String>
         let c = &lim_configs(tier)[idx - 2000];
         println!("limits #{}: {} {:?}", idx - 2000, c.ep.label(), c.probes);
         return match script {
-            Some(sc) => crate::simnet::run_script::<Lim>(c, &sc, 200_000),
-            None => crate::simnet::run_one::<Lim>(c, choices, 200_000),
+            Some(sc) => crate::simnet::run_script::<Lim>(c, &sc, 5_000_000),
+            None => crate::simnet::run_one::<Lim>(c, choices, 5_000_000),
         };
     }
     if idx >= 1000 {
